@@ -44,3 +44,10 @@ _cl = [h for h in HARNESSES if h["name"] == "closest_s1"][0]
 _h = dict(_cl); _h.update(name="closest_numa_s1", entry="h_closest_numa", encoded=["hwloc_get_closest_objs (source in a special level: negative depth)"], tiers={"quick": {}, "thorough": {}},
           bounds="seed S1; the source is either NUMA node (enumerated), max 0..3 symbolic: the other NUMA node is returned, no access outside the level arrays")
 HARNESSES.append(_h)
+
+_an = [h for h in HARNESSES if h["name"] == "ancestors_s2"][0]
+for _k in range(4):
+    _h = dict(_an); _h.update(name="common_ancestor_any_s2_%d" % _k, entry="h_common_ancestor_any", defines={"SEED": 2, "NSLICE": 4, "SLICE": _k}, encoded=["hwloc_get_common_ancestor_obj (objects of special levels: negative depths)"], tiers={"quick": {}, "thorough": {}}, object_bits=13, cost=60, unwind=24,
+              unwindset=dict(_an.get("unwindset", {}), **{"h_common_ancestor_any.0": 22, "h_common_ancestor_any.1": 22, "ca_case.0": 10, "ca_case.1": 10, "ca_walk.0": 6, "ca_walk.1": 6, "ca_walk.2": 6, "ca_walk.3": 6, "hwloc_get_common_ancestor_obj.0": 10, "hwloc_get_common_ancestor_obj.1": 10, "hwloc_get_common_ancestor_obj.2": 10, "hwloc_get_common_ancestor_obj.3": 10, "hwloc_get_common_ancestor_obj.4": 10, "hwloc_get_common_ancestor_obj.5": 10, "hwloc_get_common_ancestor_obj.6": 10, "hwloc_get_common_ancestor_obj.7": 10}),
+              bounds="seed S2 (Misc, bridge/PCI/OS device, a CPU-less NUMA node): every ordered pair of its objects as concrete runs selected by symbolic inputs, dealt to 4 slices; result = first element of one parent chain that lies on the other, never NULL")
+    HARNESSES.append(_h)
